@@ -16,7 +16,7 @@ import (
 // refuses (or miscounts) beyond some threshold breaks them only out here.
 
 var extremeDepths = []int{1025, 4097, 10001, 32769, 65537, 100001}
-var extremeLens = []int{65535, 65536, 65537, 1<<20 + 1}
+var extremeLens = []int{65535, 65536, 65537, 1<<20 + 1, 2<<20 + 3, 3<<20 + 5, 2<<20 + 3, 3<<20 + 5}
 var extremeCounts = []int{65535, 65536, 65537, 100001, 262145}
 
 func cborHead(major byte, n int) []byte {
@@ -52,7 +52,11 @@ func ubLen(n int) []byte {
 // extremeValue draws one extreme value: its encoding in f and its model value.
 func extremeValue(c *simkit.Choices, f model.Format) ([]byte, model.Val, string) {
 	var b bytes.Buffer
-	switch c.N(6) {
+	kind := c.N(8)
+	if kind > 5 {
+		kind = 2 // long strings get three shares: most buffering code is about them
+	}
+	switch kind {
 	case 0: // nested arrays
 		n := extremeDepths[c.N(len(extremeDepths))]
 		v := model.Int(0)
@@ -89,24 +93,56 @@ func extremeValue(c *simkit.Choices, f model.Format) ([]byte, model.Val, string)
 			b.Write(bytes.Repeat([]byte{'}'}, n))
 		}
 		return b.Bytes(), v, "nested-objects"
-	case 2: // one long string
+	case 2: // one long string, bare or inside a container with something after it
 		n := extremeLens[c.N(len(extremeLens))]
-		s := strings.Repeat("s", n-1) + "é"[:1+c.N(2)] // ends in 1 byte of / a whole 2-byte rune
-		if !strings.HasSuffix(s, "é") {
-			s = s[:len(s)-1] + "z"
-		}
+		s := strings.Repeat("s", n-1) + []string{"z", "é"}[c.N(2)]
+		sv := model.Text(s)
+		var enc []byte
 		switch f {
 		case model.JSON:
-			b.WriteString(`"` + s + `"`)
+			enc = []byte(`"` + s + `"`)
 		case model.CBOR:
-			b.Write(cborHead(3, len(s)))
-			b.WriteString(s)
+			enc = append(cborHead(3, len(s)), s...)
 		default:
-			b.WriteByte('S')
-			b.Write(ubLen(len(s)))
-			b.WriteString(s)
+			enc = append(append([]byte{'S'}, ubLen(len(s))...), s...)
 		}
-		return b.Bytes(), model.Text(s), "long-string"
+		switch c.N(4) {
+		case 0: // {"a": <long>, "b": 1}: a key right after the long string
+			v := model.Val{K: model.VObj, Keys: []string{"a", "b"}, A: []model.Val{sv, model.Int(1)}}
+			switch f {
+			case model.JSON:
+				b.WriteString(`{"a":`)
+				b.Write(enc)
+				b.WriteString(`,"b":1}`)
+			case model.CBOR:
+				b.Write([]byte{0xa2, 0x61, 'a'})
+				b.Write(enc)
+				b.Write([]byte{0x61, 'b', 0x01})
+			default:
+				b.Write([]byte{'{', 'i', 1, 'a'})
+				b.Write(enc)
+				b.Write([]byte{'i', 1, 'b', 'i', 1, '}'})
+			}
+			return b.Bytes(), v, "long-string-then-key"
+		case 1: // [<long>, "x", 2]
+			v := model.Val{K: model.VArr, A: []model.Val{sv, model.Text("x"), model.Int(2)}}
+			switch f {
+			case model.JSON:
+				b.WriteString(`[`)
+				b.Write(enc)
+				b.WriteString(`,"x",2]`)
+			case model.CBOR:
+				b.WriteByte(0x83)
+				b.Write(enc)
+				b.Write([]byte{0x61, 'x', 0x02})
+			default:
+				b.WriteByte('[')
+				b.Write(enc)
+				b.Write([]byte{'S', 'i', 1, 'x', 'i', 2, ']'})
+			}
+			return b.Bytes(), v, "long-string-in-array"
+		}
+		return enc, sv, "long-string"
 	case 3: // very many elements
 		n := extremeCounts[c.N(len(extremeCounts))]
 		v := model.Val{K: model.VArr, A: make([]model.Val, n)}
@@ -129,6 +165,14 @@ func extremeValue(c *simkit.Choices, f model.Format) ([]byte, model.Val, string)
 				b.WriteByte(byte(i % 10))
 			}
 		default:
+			if c.N(3) == 0 {
+				// a typed array of null: 1 + 1 + 5 bytes of header stand for n values
+				n = []int{65537, 1<<20 + 1}[c.N(2)]
+				v = model.Val{K: model.VArr, A: make([]model.Val, n)}
+				b.Write([]byte{'[', '$', 'Z', '#'})
+				b.Write(ubLen(n))
+				return b.Bytes(), v, "typed-array-of-null"
+			}
 			if c.Bool() {
 				b.Write([]byte{'[', '#'})
 				b.Write(ubLen(n))
